@@ -103,6 +103,27 @@ fn check_time(ctx: &Ctx, env: &Env, case: &CaseId, t: &TimeSpec, with_crl: bool,
 				check_field(ctx, case, &label, "notBefore", t, &v.not_before);
 				check_field(ctx, case, &label, "notAfter", t, &v.not_after);
 				out = Some(v.not_before.text.clone().into_bytes());
+				// second generation: the parameters a certificate reports are used again (renewal, cross-signing); the
+				// times they hold must still be the same instants, whatever offset the caller used
+				let again = cert.params().clone();
+				let second = if case.index % 2 == 0 { crate::guard(|| again.self_signed(&env.key)) } else { crate::guard(|| again.signed_by(&env.key, &env.ca, &env.key)) };
+				match second {
+					Err(pn) => ctx.violation("c09:panic:cert-reissued", case, &label, &pn),
+					Ok(Err(e)) => ctx.violation("c09:refused:cert-reissued", case, &label, &format!("parameters reported by a certificate were refused: {}", e)),
+					Ok(Ok(c2)) => match x509::parse_certificate(c2.der()) {
+						Err(e) => ctx.violation("c09:undecodable:cert-reissued", case, &label, &e),
+						Ok(v2) => {
+							check_field(ctx, case, &label, "reissued-notBefore", t, &v2.not_before);
+							check_field(ctx, case, &label, "reissued-notAfter", t, &v2.not_after);
+							let third = c2.params().clone();
+							if let Ok(Ok(c3)) = crate::guard(|| third.self_signed(&env.key)) {
+								if let Ok(v3) = x509::parse_certificate(c3.der()) {
+									check_field(ctx, case, &label, "reissued-twice-notBefore", t, &v3.not_before);
+								}
+							}
+						},
+					},
+				}
 				#[cfg(feature = "ossl")]
 				if with_ossl {
 					if let Ok(x) = openssl::x509::X509::from_der(cert.der()) {
@@ -154,6 +175,42 @@ fn check_time(ctx: &Ctx, env: &Env, case: &CaseId, t: &TimeSpec, with_crl: bool,
 				Ok(Ok(crl)) => match x509::parse_crl(crl.der()) {
 					Err(e) => ctx.violation("c09:undecodable:crl", case, &label, &e),
 					Ok(v) => {
+						// the parameters the list reports, signed again: same instants
+						let rep = crl.params();
+						let again = CertificateRevocationListParams {
+							this_update: rep.this_update,
+							next_update: rep.next_update,
+							crl_number: rep.crl_number.clone(),
+							issuing_distribution_point: None,
+							revoked_certs: rep
+								.revoked_certs
+								.iter()
+								.map(|r| RevokedCertParams {
+									serial_number: r.serial_number.clone(),
+									revocation_time: r.revocation_time,
+									reason_code: r.reason_code,
+									invalidity_date: r.invalidity_date,
+								})
+								.collect(),
+							key_identifier_method: kid(),
+						};
+						match crate::guard(|| again.signed_by(&env.ca, &env.key)) {
+							Err(pn) => ctx.violation("c09:panic:crl-reissued", case, &label, &pn),
+							Ok(Err(e)) => ctx.violation("c09:refused:crl-reissued", case, &label, &format!("parameters reported by a CRL were refused: {}", e)),
+							Ok(Ok(crl2)) => match x509::parse_crl(crl2.der()) {
+								Err(e) => ctx.violation("c09:undecodable:crl-reissued", case, &label, &e),
+								Ok(v2) => {
+									if variant == 0 {
+										check_field(ctx, case, &label, "reissued-thisUpdate", t, &v2.this_update);
+									} else if let Some(n) = &v2.next_update {
+										check_field(ctx, case, &label, "reissued-nextUpdate", t, n);
+									}
+									if let Some(r) = v2.revoked.as_ref().and_then(|r| r.first()) {
+										check_field(ctx, case, &label, "reissued-revocationDate", t, &r.time);
+									}
+								},
+							},
+						}
 						if variant == 0 {
 							check_field(ctx, case, &label, "thisUpdate", t, &v.this_update);
 						} else if let Some(n) = &v.next_update {
